@@ -29,7 +29,7 @@ SHAPES = {
 FREE = {"n2free", "n2sim", "n2ev", "n2simw"}
 
 
-def q_quantise(shape, sname, wmax):
+def q_quantise(shape, sname, wmax, both_views=False):
     steps = STEPS[sname]
 
     def fn(ctx):
@@ -52,12 +52,17 @@ def q_quantise(shape, sname, wmax):
         orig[id(cap)] = b.total
         msgs.append(cap)
         seq = abs_sequence(msgs, presorted=True)
+        if both_views:
+            seq.rel                      # the relative view exists before the call and must follow it
         if steps is None:
             seq.quantise()
         else:
             seq.quantise(list(steps))
         out = raw_abs(seq)
         ea = [Ev(m.time, m) for m in out if m.message_type != INTERNAL]
+        if both_views:
+            er_, dr_ = rel_events(raw_rel(seq))
+            ctx.must("relative_view_follows", and_(events_eq_multiset_timed(er_, ea), eq(dr_, out[-1].time if out else 0)))
         ctx.must("on_grid", and_([or_([eq(m.time % s, 0) for s in st]) for m in out]))
         known = [m for m in out if id(m) in orig]
         ctx.must("only_input_messages", len(known) == len(out))
@@ -104,7 +109,10 @@ def q_quantise(shape, sname, wmax):
         return [obs_abs(out)]
     cl = ["on_grid", "only_input_messages", "moved_at_most_largest_step", "time_ordered", "pairing_alternates",
           "positive_durations", "no_overlap", "other_events_kept", "survivor_keeps_fields"]
-    return Query(f"{shape}/{sname}/w{wmax}", fn, cl, desc=f"quantise({steps if steps else 'default'}) on shape {shape}")
+    if both_views:
+        cl = cl + ["relative_view_follows"]
+    return Query(f"{shape}/{sname}/w{wmax}{'/both' if both_views else ''}", fn, cl,
+                 desc=f"quantise({steps if steps else 'default'}) on shape {shape}")
 
 
 REQUIRED = ["isolated_note_dropped_only_without_room"]
@@ -123,7 +131,9 @@ def queries(tier, seed):
         qs.append(q_quantise("n2free", sn, 2 * max(STEPS[sn]) + 1))
         qs.append(q_quantise("n2sim", sn, 2 * max(STEPS[sn]) + 1))
     qs.append(q_quantise("n2simw", "s6", 5))
-    qs.append(q_quantise("n1", "s8812", 26))       # a step list that repeats a value
+    qs.append(q_quantise("n1", "s8812", 26))
+    qs.append(q_quantise("n1", "s6", 14, both_views=True))
+    qs.append(q_quantise("n1ev", "s4", 10, both_views=True))       # a step list that repeats a value
     qs.append(q_quantise("n1", "default", 13))
     if tier == "thorough":
         for sn in ("s6", "s4"):
